@@ -65,6 +65,9 @@ def _key_origin(f: Func, key: ast.AST, at: ast.AST | None = None) -> tuple[str, 
         elif ("write_gate" in txt or "hold_gate" in txt) and any("_unused" in g and pol for g, pol in gs):
             kinds.add("gate")
             evidence.append("ids are memory gates flagged *_gate_unused")
+        elif "unused_enable_const" in txt and _enable_const_provenance_ok(f):
+            kinds.add("enable-const")
+            evidence.append("id is the anonymous always-on enable constant of a write whose gates were optimised away (set only from op.write_enable of a non-user-declared IRConst, removed only when nothing else reads it)")
         elif "source_node_id_to_remove" in txt or any("source_node_id_to_remove" in norm(v) for x in ast.walk(e) if isinstance(x, ast.Name) for v in du.value_exprs(x.id)):
             kinds.add("inlined-decider")
             evidence.append("ids come from comparison_data['source_node_id_to_remove']")
@@ -118,6 +121,23 @@ def _key_origin(f: Func, key: ast.AST, at: ast.AST | None = None) -> tuple[str, 
         return "other", "keys also derive from: " + "; ".join(x for x in evidence if x.startswith("`"))
     return sorted(kinds)[0], "; ".join(sorted(set(evidence)))
 
+
+
+def _enable_const_provenance_ok(f: Func) -> bool:
+    """Every store to `<module>.unused_enable_const` in the class takes the node id of the IRConst behind op.write_enable, under a guard that
+    excludes user-declared constants."""
+    if f.cls is None:
+        return False
+    stores = []
+    for m in f.cls.methods.values():
+        c = canon(m)
+        for n in walk_local(m.node):
+            if isinstance(n, ast.Assign) and isinstance(n.targets[0], ast.Attribute) and n.targets[0].attr == "unused_enable_const":
+                gs = cguards(m, n)
+                ok = c.text(n.value) == "self._ir_nodes.get(op.write_enable.source_id).node_id" \
+                    and any(pol and "isinstance(self._ir_nodes.get(op.write_enable.source_id), IRConst)" in g and "user_declared" in g for g, pol in gs)
+                stores.append(ok)
+    return bool(stores) and all(stores)
 
 def run(repo: Repo, rep: Report, tier: str) -> None:
     rs = Resolver(repo)
